@@ -41,7 +41,26 @@ func main() {
 	}
 }
 
+// pkgFilter: with the pseudo property ALL, GOWP_PKGS (comma-separated package path
+// suffixes) selects every contract of those packages, whatever property it serves
+// (used by the seeded-change matrix to see which property's obligations catch a change).
+func pkgSelected(pkg string) bool {
+	l := os.Getenv("GOWP_PKGS")
+	if l == "" {
+		return true
+	}
+	for _, s := range strings.Split(l, ",") {
+		if s != "" && (pkg == s || strings.HasSuffix(pkg, "/"+s)) {
+			return true
+		}
+	}
+	return false
+}
+
 func hasProp(ps []string, p string) bool {
+	if p == "ALL" {
+		return true
+	}
 	for _, x := range ps {
 		if x == p {
 			return true
@@ -123,7 +142,7 @@ func cmdCheck(args []string) int {
 	known := loadKnown()
 	e.known = map[string]*knownFinding{}
 	for i := range known {
-		if known[i].Property == prop {
+		if known[i].Property == prop || prop == "ALL" {
 			e.known[known[i].Obligation] = &known[i]
 		}
 	}
@@ -132,7 +151,7 @@ func cmdCheck(args []string) int {
 	var assumedAll []string
 	for _, cf := range e.files {
 		for _, fc := range cf.Funcs {
-			if fc.Assumed {
+			if fc.Assumed || (prop == "ALL" && !pkgSelected(fc.Pkg)) {
 				continue
 			}
 			sel := hasProp(fc.Props, prop) || (prop == "C07" && !fc.NoSweep)
@@ -275,7 +294,11 @@ func cmdCheck(args []string) int {
 		if o.Status != "sat" || !replayReproduced(path) {
 			suffix = " no-failing-input-found"
 		}
-		fmt.Printf("FAILED %s (%s, %s) at %s: %s\n", o.Name, o.Status, o.Solver, o.Pos, o.Text)
+		if prop == "ALL" {
+			fmt.Printf("FAILED[%s] %s (%s, %s) at %s: %s\n", strings.Join(o.Props, ","), o.Name, o.Status, o.Solver, o.Pos, o.Text)
+		} else {
+			fmt.Printf("FAILED %s (%s, %s) at %s: %s\n", o.Name, o.Status, o.Solver, o.Pos, o.Text)
+		}
 		fmt.Printf("VIOLATION property=%s replay=%s%s\n", prop, path, suffix)
 		if *dump != "" {
 			os.MkdirAll(*dump, 0o755)
@@ -373,7 +396,7 @@ func matchKnown(known []knownFinding, prop, obl string) *knownFinding {
 		if k.Status == "fixed" {
 			continue
 		}
-		if k.Property == prop && k.Obligation == obl {
+		if (k.Property == prop || prop == "ALL") && k.Obligation == obl {
 			return k
 		}
 	}
